@@ -177,7 +177,7 @@ def run(ctx):
     # ---------- C. grouping with nested ListGraders
     for it in range(ctx.scale(80, 1500)):
         pal = GG.DYAD
-        gsize = rng.randint(2, 3)
+        gsize = rng.randint(2, 4)
         ngroups = rng.randint(2, 3)
         outer_ordered = rng.random() < 0.5
         leaf = GG.build_leaf(rng, pal, wrong_msg='')
@@ -235,6 +235,41 @@ def run(ctx):
                             if [GG.canon_result(x) for x in want] != [GG.canon_result(x) for x in got]:
                                 ctx.violation('grouped: results are not reported at the positions of the inputs they grade',
                                               {'cfg': built.desc['cfg'], 'input': inp, 'group': gi + 1}, impl=GG.canon_result(val), expected=[GG.canon_result(x) for x in want])
+                elif (not outer_ordered) and g.config['partial_credit'] and len(inp) == len(grouping):
+                    # unordered groups: the reported entries are, group by group, what the nested grader returns for SOME one-to-one
+                    # assignment of groups to answers, and the total credit is maximal over all assignments and answer lists
+                    ng = max(grouping)
+                    sg = g.config['subgraders']
+                    idxs = [[i for i, x in enumerate(grouping) if x == gi + 1] for gi in range(ng)]
+                    best_total, found = None, False
+                    got = [[GG.canon_result(ents[i]) for i in idx] for idx in idxs]
+                    tot = sum(Fraction(e['grade_decimal']) for e in ents)
+                    okall = True
+                    for al in g.config['answers']:
+                        R = [[None] * ng for _ in range(ng)]
+                        for gi in range(ng):
+                            for aj in range(ng):
+                                kk, rr = GG.run_impl(lambda: sg.check(al[aj], [inp[i] for i in idxs[gi]]))
+                                if kk != 'out':
+                                    okall = False
+                                else:
+                                    R[gi][aj] = [GG.canon_result(x) for x in rr['input_list']]
+                        if not okall:
+                            break
+                        T = [[sum(Fraction(e['grade_decimal']) for e in R[gi][aj]) for aj in range(ng)] for gi in range(ng)]
+                        for p in itertools.permutations(range(ng)):
+                            t = sum(T[gi][p[gi]] for gi in range(ng))
+                            if best_total is None or t > best_total:
+                                best_total = t
+                            if all(R[gi][p[gi]] == got[gi] for gi in range(ng)):
+                                found = True
+                    if okall:
+                        if tot != best_total:
+                            ctx.violation('grouped unordered: total credit %s is not the maximum %s over all assignments of groups to answers' % (tot, best_total),
+                                          {'cfg': built.desc['cfg'], 'answers': built.answers_json(), 'input': inp, 'table': leaf.desc['tab']}, impl=GG.canon_result(val))
+                        elif not found:
+                            ctx.violation('grouped unordered: entries are not the nested results of a one-to-one assignment reported at the positions of their inputs',
+                                          {'cfg': built.desc['cfg'], 'answers': built.answers_json(), 'input': inp, 'table': leaf.desc['tab']}, impl=GG.canon_result(val))
             record(built, inp, kind, val, True, 'grouped:%s' % ('ordered' if outer_ordered else 'unordered'))
     flush()
 
